@@ -6,6 +6,7 @@ import (
 	"bytes"
 	"crypto/sha256"
 	"fmt"
+	"os"
 	"sort"
 
 	ethcrypto "github.com/ethereum/go-ethereum/crypto"
@@ -642,6 +643,9 @@ func (w *World) applyProposals(applied []*MProposal) {
 			for _, d := range hostileDocs {
 				if d == string(pr.Options[pr.Major]) {
 					w.Feat["hostile_option_document_applied"]++
+					if os.Getenv("VERIF_DOC_STATS") != "" {
+						w.Feat["hostile_applied:"+d]++
+					}
 					break
 				}
 			}
